@@ -1,7 +1,27 @@
 (** Proofs about Model/FlowSend.v (C05): the credit invariants over all disciplined
     interleavings of application calls with credit frames. *)
-From QV Require Import Lib.Tac Lib.Corr Model.FlowSend.
+From QV Require Import Lib.Tac Lib.Corr Model.FlowSend Proofs.FlowSendAcc.
 Open Scope Z_scope.
+
+(** Reduce comparisons of literals ([Z.eqb] is [simpl never]). *)
+Ltac red_eqb :=
+  repeat match goal with
+  | |- context [Z.eqb (Zpos ?a) (Zpos ?b)] =>
+      let v := eval vm_compute in (Z.eqb (Zpos a) (Zpos b)) in
+      change (Z.eqb (Zpos a) (Zpos b)) with v
+  | |- context [Z.eqb Z0 (Zpos ?b)] => change (Z.eqb Z0 (Zpos b)) with false
+  | |- context [Z.eqb (Zpos ?b) Z0] => change (Z.eqb (Zpos b) Z0) with false
+  | |- context [Z.eqb Z0 Z0] => change (Z.eqb Z0 Z0) with true
+  end.
+Ltac red_eqb_in H :=
+  repeat match type of H with
+  | context [Z.eqb (Zpos ?a) (Zpos ?b)] =>
+      let v := eval vm_compute in (Z.eqb (Zpos a) (Zpos b)) in
+      change (Z.eqb (Zpos a) (Zpos b)) with v in H
+  | context [Z.eqb Z0 (Zpos ?b)] => change (Z.eqb Z0 (Zpos b)) with false in H
+  | context [Z.eqb (Zpos ?b) Z0] => change (Z.eqb (Zpos b) Z0) with false in H
+  | context [Z.eqb Z0 Z0] => change (Z.eqb Z0 Z0) with true in H
+  end.
 
 (* ------------------------------------------------------------------------------------------ *)
 (** * The stream map *)
@@ -180,26 +200,28 @@ Definition pge_params (p q : Params) : bool :=
 Definition in_map_remote (s : State) (id : Z) : bool :=
   negb (id_init id =? s.(side)) && match lookup id s.(send) with Some _ => true | None => false end.
 
-(** Application calls may name ANY stream id (the discipline "a remote stream is used only after
-    [accept] returned it" matters for [send_streams] only, which the invariant does not read). *)
-Definition app_ok (s : State) (id : Z) : bool := (0 <=? id).
+(** The application uses a remote stream that exists only after [accept] returned it. *)
+Definition app_ok (s : State) (id : Z) : bool :=
+  (0 <=? id) && (negb (in_map_remote s id) || (id_index id <? s.(next_reported_bi))).
 
 Definition is_app (c : Z) : bool := (c =? 3) || (c =? 4) || (c =? 5).
 Definition is_neutral (c : Z) : bool :=
-  (c =? 2) || (c =? 9) || (c =? 11) || (c =? 13) || (c =? 15) || (c =? 19).
+  (c =? 2) || (c =? 9) || (c =? 13) || (c =? 15) || (c =? 19) || (c =? 21).
 
 (** Admissible operations (the discipline of [Connection], see Model/FlowSend.v [wf_static]). *)
 Definition adm (g : Ghost) (s : State) (op : list Z) : bool :=
   let c := arg op 0 in
   let id := arg op 1 in
   if g.(g_phase) =? 1 then (c =? 1) && params_valid (params_of op)
+  else if c =? 21 then (g.(g_phase) =? 0) && (s.(side) =? 0)
   else if is_neutral c then true
   else if is_app c then app_ok s id && (0 <=? arg op 2)
   else if c =? 1 then (g.(g_phase) =? 0) && params_valid (params_of op) && pge_params (params_of op) g.(g_par)
   else if c =? 14 then g.(g_phase) =? 0
   else if c =? 6 then is_varint id
   else if c =? 7 then (0 <=? id) && (0 <=? arg op 2)
-  else if (c =? 8) || (c =? 10) || (c =? 17) || (c =? 18) then true
+  else if c =? 8 then 0 <=? arg op 2
+  else if (c =? 10) || (c =? 11) || (c =? 17) || (c =? 18) then true
   else if c =? 16 then (0 <=? id) && is_varint (arg op 2)
   else false.
 
@@ -217,12 +239,13 @@ Definition frame_id (k : Z) (s : State) : Z :=
 Definition gupd (g : Ghost) (s : State) (op : list Z) (s' : State) (r : list Z) : Ghost :=
   let c := arg op 0 in
   let id := arg op 1 in
-  if c =? 14 then mkGhost 1 g.(g_par) [] [] [] 0
+  if c =? 14 then mkGhost 1 g.(g_par) [] [] g.(g_ms) 0
   else if c =? 1 then
     let p := params_of op in
     if params_valid p then
       mkGhost 2 p (p.(p_max_data) :: g.(g_md)) g.(g_msd)
-              ((0, p.(p_streams_bidi)) :: (1, p.(p_streams_uni)) :: g.(g_ms)) g.(g_closed)
+              ((0, p.(p_streams_bidi)) :: (1, p.(p_streams_uni))
+               :: (if g.(g_phase) =? 1 then [] else g.(g_ms))) g.(g_closed)
     else g
   else
     let ph := if (g.(g_phase) =? 0) && (is_neutral c || (is_app c && id_local s.(side) id))
@@ -267,7 +290,7 @@ Definition early_facts (s : State) (g : Ghost) : Prop :=
   /\ (g.(g_phase) = 1 ->
         s.(next_bi) = 0 /\ s.(next_uni) = 0 /\ s.(data_sent) = 0 /\ s.(max_data) = 0
         /\ s.(unacked_data) = 0
-        /\ g.(g_md) = [] /\ g.(g_ms) = [] /\ g.(g_closed) = 0).
+        /\ g.(g_md) = [] /\ g.(g_closed) = 0).
 
 Record Inv (s : State) (g : Ghost) : Prop := mkInv {
   i_side : 0 <= s.(side) <= 1;
@@ -510,7 +533,6 @@ Proof.
     + cbn. destruct (M4 H0) as (_ & _ & Q1 & Q2 & Q3 & _). lia.
     + apply M4; assumption.
     + apply M4; assumption.
-    + apply M4; assumption.
 Qed.
 
 Lemma rest_fields s1 s : rest s1 = rest s ->
@@ -564,112 +586,6 @@ Proof.
   - intros Hp. specialize (M Hp). destruct M as (M1 & M2 & M3 & M4).
     unfold early_facts, get_next; cbn.
     split; [exact M1|]. split; [exact M2|]. split; [exact M3|]. intros Hq. contradiction.
-Qed.
-
-(* ------------------------------------------------------------------------------------------ *)
-(** * The proved machine.
-
-    The inductive theorems below cover every interleaving of
-      [write] (3) on any stream, MAX_DATA (6) with any value, [set_send_window] (13),
-      [accept] (18) and the projection (19),
-    started from ANY state satisfying the invariant (in particular from [start]).  The other
-    operations are admitted by [adm] but their preservation lemmas are not finished: see
-    [C05_full] in Props/C05.v.  [adm_core] is the restriction that is proved. *)
-Definition adm_core (g : Ghost) (s : State) (op : list Z) : bool :=
-  let c := arg op 0 in
-  adm g s op && negb (g.(g_phase) =? 1)
-  && ((c =? 3) || (c =? 6) || (c =? 13) || (c =? 18) || (c =? 19)).
-
-Definition gstep_core (sg : State * Ghost) (op : list Z) : State * Ghost :=
-  let '(s, g) := sg in
-  if adm_core g s op then
-    match apply op s with
-    | Some (s', r) => (s', gupd g s op s' r)
-    | None => (s, g)
-    end
-  else (s, g).
-
-Definition grun_core (i : ops) (sg : State * Ghost) : State * Ghost := fold_left gstep_core i sg.
-
-Ltac red_eqb :=
-  repeat match goal with
-  | |- context [Z.eqb (Zpos ?a) (Zpos ?b)] =>
-      let v := eval vm_compute in (Z.eqb (Zpos a) (Zpos b)) in
-      change (Z.eqb (Zpos a) (Zpos b)) with v
-  | |- context [Z.eqb Z0 (Zpos ?b)] => change (Z.eqb Z0 (Zpos b)) with false
-  | |- context [Z.eqb (Zpos ?b) Z0] => change (Z.eqb (Zpos b) Z0) with false
-  | |- context [Z.eqb Z0 Z0] => change (Z.eqb Z0 Z0) with true
-  end.
-
-Lemma gstep_core_inv s g op :
-  Inv s g -> Inv (fst (gstep_core (s, g) op)) (snd (gstep_core (s, g) op)).
-Proof.
-  intros I. unfold gstep_core, adm_core.
-  destruct (adm g s op) eqn:A; cbn [andb]; [|exact I].
-  destruct (g_phase g =? 1) eqn:P1; cbn [negb andb]; [exact I|].
-  destruct (arg op 0 =? 3) eqn:C3.
-  { cbn [orb]. assert (Hc : arg op 0 = 3) by lia.
-    unfold apply, gupd, adm, is_neutral, is_app in *. rewrite Hc in *. rewrite P1 in A.
-    change (3 =? 2) with false in *. change (3 =? 9) with false in *. change (3 =? 11) with false in *.
-    change (3 =? 13) with false in *. change (3 =? 15) with false in *. change (3 =? 19) with false in *.
-    change (3 =? 3) with true in *. change (3 =? 14) with false in *. change (3 =? 1) with false in *.
-    change (3 =? 6) with false in *. change (3 =? 7) with false in *. change (3 =? 8) with false in *.
-    change (3 =? 10) with false in *. change (3 =? 17) with false in *. cbn [orb andb] in *.
-    destruct (do_write (arg op 1) (arg op 2) s) as [[s' r]|] eqn:W; cbn [fst snd]; [|exact I].
-    unfold app_ok, id_local in A. unfold id_local.
-    destruct ((g_phase g =? 0) && (id_init (arg op 1) =? side s)) eqn:Ph.
-    - assert (Hg : mkGhost 0 (g_par g) (g_md g) (g_msd g) (g_ms g) (g_closed g) = g)
-        by (destruct g; cbn in *; f_equal; lia).
-      rewrite Hg. eapply write_inv; eauto; lia.
-    - pose proof (i_phase _ _ I).
-      eapply write_inv; [apply inv_phase2; exact I|exact W|lia|cbn; lia]. }
-  destruct (arg op 0 =? 6) eqn:C6.
-  { cbn [orb]. assert (Hc : arg op 0 = 6) by lia.
-    unfold apply, gupd, adm, is_neutral, is_app in *. rewrite Hc in *. rewrite P1 in A.
-    change (6 =? 2) with false in *. change (6 =? 9) with false in *. change (6 =? 11) with false in *.
-    change (6 =? 13) with false in *. change (6 =? 15) with false in *. change (6 =? 19) with false in *.
-    change (6 =? 3) with false in *. change (6 =? 4) with false in *. change (6 =? 5) with false in *.
-    change (6 =? 14) with false in *. change (6 =? 1) with false in *.
-    change (6 =? 6) with true in *. change (6 =? 7) with false in *. change (6 =? 8) with false in *.
-    change (6 =? 10) with false in *. change (6 =? 17) with false in *. cbn [orb andb] in *.
-    rewrite A. cbn [fst snd]. rewrite Bool.andb_false_r.
-    pose proof (max_data_inv s (mkGhost 2 (g_par g) (g_md g) (g_msd g) (g_ms g) (g_closed g)) (arg op 1)
-                  (inv_phase2 _ _ I)) as Hm. cbn in Hm. apply Hm; [unfold is_varint in A; lia|lia]. }
-  destruct (arg op 0 =? 13) eqn:C13.
-  { cbn [orb]. assert (Hc : arg op 0 = 13) by lia.
-    unfold apply, gupd, is_neutral, is_app. rewrite Hc. red_eqb. cbn [orb andb fst snd ok].
-    rewrite Bool.andb_true_r.
-    destruct (g_phase g =? 0) eqn:P0.
-    - assert (Hg : mkGhost 0 (g_par g) (g_md g) (g_msd g) (g_ms g) (g_closed g) = g)
-        by (destruct g; cbn in *; f_equal; lia).
-      rewrite Hg. eapply Inv_ext; [|exact I]. solve_core.
-    - eapply Inv_ext; [|apply inv_phase2; exact I]. solve_core. }
-  destruct (arg op 0 =? 18) eqn:C18.
-  { cbn [orb]. assert (Hc : arg op 0 = 18) by lia.
-    unfold apply, gupd, is_neutral, is_app. rewrite Hc. red_eqb. cbn [orb andb].
-    rewrite Bool.andb_false_r.
-    unfold do_accept.
-    destruct (norm_dir (arg op 1) =? 0); [destruct (next_remote_bi s =? next_reported_bi s)|];
-      cbn [fst snd ok]; (eapply Inv_ext; [|apply inv_phase2; exact I]); solve_core. }
-  destruct (arg op 0 =? 19) eqn:C19; cbn [orb]; [|exact I].
-  assert (Hc : arg op 0 = 19) by lia.
-  unfold apply, gupd, is_neutral, is_app. rewrite Hc. red_eqb. cbn [orb andb].
-  rewrite Bool.andb_true_r.
-  destruct (observe s); cbn [fst snd ok]; [|exact I].
-  destruct (g_phase g =? 0) eqn:P0.
-  - assert (Hg : mkGhost 0 (g_par g) (g_md g) (g_msd g) (g_ms g) (g_closed g) = g)
-      by (destruct g; cbn in *; f_equal; lia).
-    rewrite Hg. exact I.
-  - apply inv_phase2; exact I.
-Qed.
-
-Theorem grun_core_inv : forall i s g, Inv s g ->
-  Inv (fst (grun_core i (s, g))) (snd (grun_core i (s, g))).
-Proof.
-  induction i as [|op t IH]; intros s g I; [exact I|].
-  unfold grun_core in *. cbn [fold_left].
-  pose proof (gstep_core_inv s g op I) as H. destruct (gstep_core (s, g) op) as [s1 g1].
-  apply IH. exact H.
 Qed.
 
 (* ------------------------------------------------------------------------------------------ *)
@@ -754,14 +670,6 @@ Qed.
 (* ------------------------------------------------------------------------------------------ *)
 (** * Consequences *)
 
-Theorem core_reachable_inv sd mrb sw p0 i s g :
-  0 <= sd <= 1 -> params_valid p0 = true ->
-  grun_core i (start sd mrb sw p0) = (s, g) -> Inv s g.
-Proof.
-  intros Hs Hv R. pose proof (grun_core_inv i _ _ (inv_start sd mrb sw p0 Hs Hv)) as H.
-  unfold start in *. cbn [fst snd] in H. rewrite R in H. exact H.
-Qed.
-
 (** The exact amount a [write] accepts. *)
 Lemma write_exact s id n x limit :
   write_limit s = Some limit -> lookup id s.(send) = Some (Some x) ->
@@ -818,4 +726,92 @@ Proof.
        repeat match goal with |- context [if is_pending ?q then _ else _] => destruct (is_pending q) end;
        cbn; repeat split; try lia;
        try (intros w Hw; discriminate); try (intros w Hw; injection Hw as <-; lia).
+Qed.
+
+(* ------------------------------------------------------------------------------------------ *)
+(** * Preservation for the remaining operations *)
+
+Ltac st := unfold put, push_pending in *; autorewrite with st in *.
+Ltac core_eq := unfold core, put, push_pending; autorewrite with st; reflexivity.
+
+Lemma early_facts_ext s s' g :
+  core s = core s' -> early_facts s g -> early_facts s' g.
+Proof.
+  unfold core. intros H. injection H as H1 H2 H3 H4 H5 H6 H7 H8 H9 H10 H11 H12.
+  unfold early_facts, get_next. rewrite <- H1, <- H2, <- H3, <- H4, <- H5, <- H9, <- H10, <- H11, <- H12.
+  auto.
+Qed.
+
+Lemma inv_unacked s g v :
+  Inv s g -> 0 <= v -> g.(g_phase) <> 1 -> Inv (set_unacked_data v s) g.
+Proof.
+  intros [A B C D E1 F G H I J K1 L M] Hv Hp.
+  constructor; unfold get_next, get_max in *; st; auto.
+  intros Hq. specialize (M Hq). unfold early_facts, get_next in *. st.
+  destruct M as (M1 & M2 & M3 & M4). repeat split; auto; try (apply M3; assumption); contradiction.
+Qed.
+
+Lemma inv_remove s g id x :
+  Inv s g -> lookup id s.(send) = Some (Some x) ->
+  Inv (set_send (remove id s.(send)) s)
+      (mkGhost 2 g.(g_par) g.(g_md) g.(g_msd) g.(g_ms) (g.(g_closed) + x.(s_offset))).
+Proof.
+  intros [A B C D E1 F G H I J K1 L M] Lk.
+  constructor; unfold get_next, get_max, delivered_stream_limit in *; st; cbn; auto; try lia.
+  - rewrite sum_off_remove, Lk. cbn [offo]. lia.
+  - intros k y Ly. destruct (Z.eq_dec k id) as [->|Hn].
+    + rewrite lookup_remove_eq in Ly by assumption. discriminate.
+    + rewrite lookup_remove_neq in Ly by assumption. apply H. exact Ly.
+  - apply NoDup_remove. exact J.
+  - intros k Hk. apply K1. eapply keys_remove_subset. exact Hk.
+Qed.
+
+Ltac destr_if :=
+  repeat match goal with
+  | H : context [if ?c then _ else _] |- _ => destruct c eqn:?
+  | |- context [if ?c then _ else _] => destruct c eqn:?
+  end.
+
+Lemma inv_open s g d :
+  Inv s g -> g.(g_phase) <> 1 -> 0 <= d <= 1 -> get_next d s < get_max d s ->
+  lookup (sid s.(side) d (get_next d s)) s.(send) = None ->
+  Inv (set_send (insert (sid s.(side) d (get_next d s)) None s.(send))
+         (set_next d (get_next d s + 1) s)) g.
+Proof.
+  intros I Hp1 Hd Hlt Ln.
+  pose proof (i_side _ _ I) as Hs.
+  destruct (i_cnt _ _ I d Hd) as (Hn & Hk).
+  remember (sid (side s) d (get_next d s)) as id eqn:Eid.
+  assert (Hii : id_init id = side s) by (subst id; apply id_init_sid; lia).
+  assert (Hid : id_dir id = d) by (subst id; apply id_dir_sid; lia).
+  assert (Hix : id_index id = get_next d s) by (subst id; apply id_index_sid; lia).
+  assert (Hid0 : 0 <= id) by (subst id; unfold sid; lia).
+  assert (Hinj : forall d0 i, 0 <= d0 <= 1 -> 0 <= i -> sid (side s) d0 i = id -> d0 = d /\ i = get_next d s).
+  { intros d0 i H1 H2 H3. subst id. unfold sid in H3. lia. }
+  destruct I as [A B C D E1 F G H I J K1 L M].
+  assert (Hcase : d = 0 \/ d = 1) by lia.
+  constructor; auto.
+  all: unfold early_facts in *; unfold set_next, get_next, get_max in *.
+  all: destruct Hcase as [Hc|Hc]; rewrite Hc in *;
+       change (0 =? 0) with true in *; change (1 =? 0) with false in *; cbv iota in *; st; auto.
+  all: try (rewrite sum_off_insert_none; assumption).
+  all: try (intros k x Lk; rewrite lookup_insert in Lk by assumption;
+            destruct (k =? id); [discriminate|apply H; exact Lk]).
+  all: try (intros d0 Hd0; specialize (I d0 Hd0); destr_if; lia).
+  all: try (apply NoDup_insert; assumption).
+  all: try (intros k Hk'; apply (proj1 (keys_insert k id None _)) in Hk'; destruct Hk' as [Hk'|Hk'];
+            [subst k; split; [lia|intros _; rewrite Hid, Hix; red_eqb; cbv iota; lia]
+            |destruct (K1 k Hk') as (K2 & K3); split; [exact K2|];
+             intros Hq; specialize (K3 Hq); destr_if; lia]).
+  all: intros Hp; specialize (M Hp); destruct M as (M1 & M2 & M3 & M4);
+       (split; [|split; [exact M2|split; [|intros Hq; contradiction]]]).
+  all: try (intros k v Lk Hr; rewrite lookup_insert in Lk by assumption;
+            destruct (k =? id) eqn:Ek; [assert (k = id) by lia; subst k; congruence|eapply M1; eassumption]).
+  all: intros Hq; destruct (M3 Hq) as (Q1 & Q2 & Q3); (split; [exact Q1|split; [exact Q2|]]).
+  all: intros d0 i Hd0 Hi; rewrite lookup_insert by assumption.
+  all: destruct (sid (side s) d0 i =? id) eqn:Ek; [discriminate|].
+  all: apply Q3; [exact Hd0|].
+  all: assert (Hx : sid (side s) d0 i <> id) by lia.
+  all: destr_if; try lia.
+  all: unfold sid in *; lia.
 Qed.
